@@ -1,5 +1,8 @@
 """Generated/ToList.lean: the special-case table of DecoratedNode.__init__, the string literals of the if/elif chain
-of DecoratedNode.to_list (incl. the "sqaure" spelling) and the label renaming of fit_from_string / string_to_aifeyn."""
+of DecoratedNode.to_list (incl. the "sqaure" spelling), the label renaming of fit_from_string / string_to_aifeyn, and the
+selection skeleton of string_to_node: the parse variants in index order (kern / evaluate flags, which of them sits behind
+`if allow_eval:`), the rule chain and the `sympy_numerics` list of check_operators, the defaults of string_to_node and the
+effective arguments of its call sites in fit_single.py."""
 import ast
 from fractions import Fraction
 import extract
@@ -19,6 +22,7 @@ extract.MODELLED += [
     (GEN, None, "is_float"),
     (FIT, None, "fit_from_string"),
     (FIT, None, "string_to_aifeyn"),
+    (GEN, None, "check_operators"),
 ]
 
 
@@ -298,12 +302,223 @@ def rename_tables(stage):
     return a
 
 
+# --------------------------------------------------------------------------------------------------------------
+# string_to_node: the four parse variants, the check_ops masking, np.nanargmin; check_operators; call sites
+# --------------------------------------------------------------------------------------------------------------
+
+S2N_PARAMS = ["s", "basis_functions", "locs", "evalf", "allow_eval", "check_ops"]
+TRY_BODY = ("expr[i] = string_to_expr(s, kern=%s, evaluate=%s, locs=locs) | if evalf:     expr[i] = expr[i].evalf() | "
+            "nodes[i] = DecoratedNode(expr[i], basis_functions) | c[i] = nodes[i].count_nodes(basis_functions) | "
+            "if check_ops:     all_in_basis[i] = check_operators(nodes[i], basis_functions)")
+S2N_TAIL = ["if check_ops and any(all_in_basis):     for i in range(len(all_in_basis)):         if not all_in_basis[i]:             c[i] = np.nan",
+            "i = np.nanargmin(c)",
+            "return (expr[i], nodes[i], int(c[i]))"]
+
+
+def _flat(n):
+    return ast.unparse(n).replace("\n", " ")
+
+
+def _bool_kw(call, name, where):
+    for k in call.keywords:
+        if k.arg == name:
+            if isinstance(k.value, ast.Constant) and isinstance(k.value.value, bool):
+                return k.value.value
+            raise ExtractError("%s: keyword %s is not a literal True/False" % (where, name))
+    raise ExtractError("%s: keyword %s missing" % (where, name))
+
+
+def _variant_of_try(tr, where):
+    if not isinstance(tr, ast.Try) or tr.orelse or tr.finalbody or len(tr.handlers) != 1:
+        raise ExtractError("%s: expected a plain try/except" % where)
+    h = tr.handlers[0]
+    if not (h.type is not None and ast.unparse(h.type) == "Exception" and h.name is None and [_flat(b) for b in h.body] == ["c[i] = np.nan"]):
+        raise ExtractError("%s: handler is not `except Exception: c[i] = np.nan`" % where)
+    if not tr.body or not (isinstance(tr.body[0], ast.Assign) and isinstance(tr.body[0].value, ast.Call)
+                           and ast.unparse(tr.body[0].value.func) == "string_to_expr"):
+        raise ExtractError("%s: the try block does not start with `expr[i] = string_to_expr(...)`" % where)
+    call = tr.body[0].value
+    kern, ev = _bool_kw(call, "kern", where), _bool_kw(call, "evaluate", where)
+    got = " | ".join(_flat(b) for b in tr.body)
+    if got != TRY_BODY % (kern, ev):
+        raise ExtractError("%s: try block changed shape: %s" % (where, got[:300]))
+    return kern, ev
+
+
+def s2n_skeleton(stage):
+    """-> (variants [(kern, evaluate, guarded)], defaults {evalf, allow_eval, check_ops})"""
+    fn = extract.find_def(extract._parse(stage, GEN), "string_to_node")
+    a = fn.args
+    names = [x.arg for x in a.args]
+    if names != S2N_PARAMS or a.vararg or a.kwarg or a.kwonlyargs:
+        raise ExtractError("string_to_node: parameters %r, the model knows %r" % (names, S2N_PARAMS))
+    defaults = dict(zip(names[len(names) - len(a.defaults):], [ast.literal_eval(d) for d in a.defaults]))
+    for k in ("evalf", "allow_eval", "check_ops"):
+        if not isinstance(defaults.get(k), bool):
+            raise ExtractError("string_to_node: default of %s is not a bool" % k)
+    body = list(fn.body)
+    if body and isinstance(body[0], ast.Expr) and isinstance(body[0].value, ast.Constant) and isinstance(body[0].value.value, str):
+        body = body[1:]
+    init = sorted(_flat(b) for b in body[:4])
+    if init != sorted(["expr = [None] * 4", "nodes = [None] * 4", "if check_ops:     all_in_basis = [False] * 4", "c = np.full(4, np.nan)"]):
+        raise ExtractError("string_to_node: initialisation of expr/nodes/all_in_basis/c changed shape: %r" % (init,))
+    tail = [_flat(b) for b in body[-3:]]
+    if tail != S2N_TAIL:
+        raise ExtractError("string_to_node: masking / np.nanargmin / return changed shape: %r" % (tail,))
+    mid = body[4:-3]
+    variants = []
+
+    def take(stmts, guarded):
+        k = 0
+        while k < len(stmts):
+            st = stmts[k]
+            if isinstance(st, ast.If) and _flat(st.test) == "allow_eval" and not st.orelse and not guarded:
+                take(st.body, True)
+                k += 1
+                continue
+            if not (isinstance(st, ast.Assign) and _flat(st.targets[0]) == "i" and isinstance(st.value, ast.Constant)
+                    and isinstance(st.value.value, int) and k + 1 < len(stmts)):
+                raise ExtractError("string_to_node line %d: expected `i = <index>` followed by a try block" % st.lineno)
+            idx = st.value.value
+            if idx != len(variants):
+                raise ExtractError("string_to_node line %d: variant index %d out of sequence (expected %d)" % (st.lineno, idx, len(variants)))
+            kern, ev = _variant_of_try(stmts[k + 1], "string_to_node variant %d (line %d)" % (idx, st.lineno))
+            variants.append((kern, ev, guarded, st.lineno))
+            k += 2
+    take(mid, False)
+    if len(variants) != 4:
+        raise ExtractError("string_to_node: %d parse variants, the arrays have 4 entries" % len(variants))
+    return variants, defaults
+
+
+def check_operators_rules(stage):
+    """-> (sympy_numerics list as written, [rule], lineno) ; rule = ('rename', label, basis op, new) | ('numeric', new) | ('prefix', p, new)"""
+    fn = extract.find_def(extract._parse(stage, GEN), "check_operators")
+    body = list(fn.body)
+    if body and isinstance(body[0], ast.Expr) and isinstance(body[0].value, ast.Constant) and isinstance(body[0].value.value, str):
+        body = body[1:]
+    if len(body) != 7:
+        raise ExtractError("check_operators: %d statements, the model knows 7" % len(body))
+    a0 = body[0]
+    if not (isinstance(a0, ast.Assign) and _flat(a0.targets[0]) == "sympy_numerics" and isinstance(a0.value, ast.List)
+            and all(isinstance(e, ast.Constant) and isinstance(e.value, str) for e in a0.value.elts)):
+        raise ExtractError("check_operators: `sympy_numerics = [<strings>]` not found")
+    numerics = [e.value for e in a0.value.elts]
+    fixed = {1: "sympy_numerics = [s.lower() for s in sympy_numerics]", 2: "labels = nodes.to_list(basis_functions)",
+             4: "flat_basis = [item for sublist in basis_functions for item in sublist]",
+             5: "all_in_basis = all([ll in flat_basis for ll in labels])", 6: "return all_in_basis"}
+    for k, want in fixed.items():
+        if _flat(body[k]) != want:
+            raise ExtractError("check_operators: statement %d is not `%s`" % (k + 1, want))
+    loop = body[3]
+    if not (isinstance(loop, ast.For) and _flat(loop.target) == "i" and _flat(loop.iter) == "range(len(labels))" and not loop.orelse
+            and len(loop.body) == 1 and isinstance(loop.body[0], ast.If)):
+        raise ExtractError("check_operators: the normalisation loop changed shape")
+    chain, orelse = _chain(loop.body[0])
+    if [_flat(b) for b in orelse] != ["labels[i] = labels[i].lower()"]:
+        raise ExtractError("check_operators: the default normalisation is not labels[i].lower()")
+    rules = []
+    for test, bd, ln in chain:
+        if not (len(bd) == 1 and isinstance(bd[0], ast.Assign) and _flat(bd[0].targets[0]) == "labels[i]"
+                and isinstance(bd[0].value, ast.Constant) and isinstance(bd[0].value.value, str)):
+            raise ExtractError("check_operators line %d: body is not `labels[i] = '<name>'`" % ln)
+        new = bd[0].value.value
+        t = _flat(test)
+        cj = _conj(test)
+        if (len(cj) == 2 and isinstance(cj[0], ast.Compare) and _flat(cj[0].left) == "labels[i]" and isinstance(cj[0].ops[0], ast.Eq)
+                and isinstance(cj[0].comparators[0], ast.Constant) and isinstance(cj[0].comparators[0].value, str)
+                and isinstance(cj[1], ast.Compare) and isinstance(cj[1].ops[0], ast.In) and isinstance(cj[1].left, ast.Constant)
+                and isinstance(cj[1].left.value, str) and _flat(cj[1].comparators[0]) == "basis_functions[2]"):
+            rules.append(("rename", cj[0].comparators[0].value, cj[1].left.value, new, ln))
+        elif t == "labels[i].lower() in sympy_numerics or is_float(labels[i])":
+            rules.append(("numeric", new, ln))
+        elif (len(cj) == 2 and isinstance(cj[0], ast.Call) and _flat(cj[0].func) == "labels[i].startswith" and len(cj[0].args) == 1
+              and isinstance(cj[0].args[0], ast.Constant) and isinstance(cj[0].args[0].value, str) and len(cj[0].args[0].value) == 1
+              and _flat(cj[1]) == "labels[i][1:].isdigit()"):
+            rules.append(("prefix", cj[0].args[0].value, new, ln))
+        else:
+            raise ExtractError("check_operators line %d: test `%s` not modelled" % (ln, t[:200]))
+    return numerics, rules
+
+
+def call_sites(stage, defaults):
+    """effective (evalf, allow_eval, check_ops) of every call of generator.string_to_node in fit_single.py"""
+    tree = extract._parse(stage, FIT)
+    out = []
+    for fn in tree.body:
+        if not isinstance(fn, ast.FunctionDef):
+            continue
+        for n in ast.walk(fn):
+            if isinstance(n, ast.Call) and ast.unparse(n.func) in ("generator.string_to_node", "string_to_node"):
+                if [ast.unparse(x) for x in n.args] != ["fun", "basis_functions"]:
+                    raise ExtractError("%s line %d: positional arguments of string_to_node are not (fun, basis_functions)" % (fn.name, n.lineno))
+                eff = dict(defaults)
+                for k in n.keywords:
+                    if k.arg not in ("evalf", "allow_eval", "check_ops") or not (isinstance(k.value, ast.Constant) and isinstance(k.value.value, bool)):
+                        raise ExtractError("%s line %d: keyword %s of string_to_node not a literal flag" % (fn.name, n.lineno, k.arg))
+                    eff[k.arg] = k.value.value
+                out.append((fn.name, eff["evalf"], eff["allow_eval"], eff["check_ops"], n.lineno))
+    names = sorted(set(o[0] for o in out))
+    if names != ["fit_from_string", "string_to_aifeyn"] or len(out) != 2:
+        raise ExtractError("fit_single.py: string_to_node is called from %r (%d calls); the model knows one call each in fit_from_string and string_to_aifeyn" % (names, len(out)))
+    return out
+
+
+def _lb(b):
+    return "true" if b else "false"
+
+
+def select_text(stage):
+    variants, defaults = s2n_skeleton(stage)
+    numerics, rules = check_operators_rules(stage)
+    sites = call_sites(stage, defaults)
+    t = ("\n/-- One parse variant of `string_to_node`: `string_to_expr(s, kern=…, evaluate=…)`; `guarded` = the block sits behind\n"
+         "`if allow_eval:`. -/\nstructure Variant where\n  kern : Bool\n  evaluate : Bool\n  guarded : Bool\n  deriving Repr, DecidableEq\n\n"
+         "/-- The variants in the order of their index `i` into `expr`, `nodes`, `c`, `all_in_basis`. -/\ndef variants : List Variant := [\n")
+    for k, (kern, ev, g, ln) in enumerate(variants):
+        t += "  ⟨%s, %s, %s⟩%s  -- i = %d, generator.py:%d\n" % (_lb(kern), _lb(ev), _lb(g), "," if k + 1 < len(variants) else "", k, ln)
+    t += "  ]\n\n"
+    t += ("/-- One `if/elif` of the normalisation loop of `check_operators`, in source order (otherwise `labels[i].lower()`).\n"
+          "`rename lab op new`: `labels[i] == lab and op in basis_functions[2]`;  `numeric new`: `labels[i].lower() in sympy_numerics or\n"
+          "is_float(labels[i])`;  `pfx p new`: `labels[i].startswith(p) and labels[i][1:].isdigit()`. -/\n"
+          "inductive CkRule where\n  | rename (lab op new : String)\n  | numeric (new : String)\n  | pfx (p : Char) (new : String)\n  deriving Repr, DecidableEq\n\n"
+          "def ckRules : List CkRule := [\n")
+    for k, r in enumerate(rules):
+        if r[0] == "rename":
+            row = ".rename %s %s %s" % (lstr(r[1]), lstr(r[2]), lstr(r[3]))
+        elif r[0] == "numeric":
+            row = ".numeric %s" % lstr(r[1])
+        else:
+            if not (len(r[1]) == 1 and r[1].isascii() and r[1].isalnum()):
+                raise ExtractError("check_operators: prefix %r not a plain character" % (r[1],))
+            row = ".pfx '%s' %s" % (r[1], lstr(r[2]))
+        t += "  %s%s  -- generator.py:%d\n" % (row, "," if k + 1 < len(rules) else "", r[-1])
+    t += "  ]\n\n"
+    t += ("/-- `sympy_numerics` of `check_operators` as written (the code lower-cases every entry before use). -/\n"
+          "def sympyNumericsRaw : List String := %s\n\n" % llist(map(lstr, numerics)))
+    t += ("/-- Effective flags of one call of `string_to_node` (keywords given at the call, else the defaults of the signature). -/\n"
+          "structure CallSite where\n  fn : String\n  evalf : Bool\n  allowEval : Bool\n  checkOps : Bool\n  deriving Repr, DecidableEq\n\n"
+          "/-- defaults of `string_to_node(s, basis_functions, locs=None, evalf=…, allow_eval=…, check_ops=…)` -/\n"
+          "def s2nDefaults : CallSite := ⟨\"string_to_node\", %s, %s, %s⟩\n\n" % (_lb(defaults["evalf"]), _lb(defaults["allow_eval"]), _lb(defaults["check_ops"])))
+    t += "/-- the calls of `generator.string_to_node` in esr/fitting/fit_single.py -/\ndef callSites : List CallSite := [\n"
+    for k, (name, ef, ae, ck, ln) in enumerate(sites):
+        t += "  ⟨%s, %s, %s, %s⟩%s  -- fit_single.py:%d\n" % (lstr(name), _lb(ef), _lb(ae), _lb(ck), "," if k + 1 < len(sites) else "", ln)
+    t += "  ]\n"
+    return t
+
+
+def variants(stage):
+    """[(kern, evaluate, guarded)] for the correspondence harness"""
+    return [(k, e, g) for k, e, g, _ in s2n_skeleton(stage)[0]]
+
+
 @extract.extractor("ToList")
 def gen(stage):
     rules = init_rules(stage)
     lits = tolist_literals(stage)
     table, par, mv = rename_tables(stage)
-    t = extract.header("ToList", [GEN + ":DecoratedNode.__init__", GEN + ":DecoratedNode.to_list", FIT + ":fit_from_string", FIT + ":string_to_aifeyn"])
+    t = extract.header("ToList", [GEN + ":DecoratedNode.__init__", GEN + ":DecoratedNode.to_list", FIT + ":fit_from_string", FIT + ":string_to_aifeyn",
+                                 GEN + ":string_to_node", GEN + ":check_operators"])
     t += ('/-- The Python constant a sympy argument is compared with (`==`) in `DecoratedNode.__init__`. -/\n'
           'inductive Const where\n'
           '  | int (k : Int)                 -- an `int` literal\n'
@@ -337,5 +552,6 @@ def gen(stage):
     t += ("/-- A numeric label whose parent label, lower-cased, equals this string is not replaced by a parameter. -/\n"
           "def noReplaceParent : String := %s\n\n" % lstr(par))
     t += "/-- default of `maxvar` (the `assert len(param_idx) <= maxvar`). -/\ndef maxvarDefault : Nat := %d\n" % mv
+    t += select_text(stage)
     t += extract.footer("ToList")
     return t
